@@ -247,20 +247,23 @@ func c12Msgpack(r *rng, id string) {
 		emit("C12 mp id=%s kind=%s err=encode", id, kind)
 		return
 	}
-	mut, rmut := "-", "-"
+	mut, rmut, mk := "-", "-", "none"
 	if len(body) > 0 && len(body) < 4000 {
 		m := append([]byte(nil), body...)
 		switch r.intn(3) {
 		case 0:
+			mk = "flip"
 			m[r.intn(len(m))] ^= byte(1 << uint(r.intn(8)))
 		case 1:
+			mk = "set"
 			m[r.intn(len(m))] = byte(r.intn(256))
 		default:
+			mk = "trunc"
 			m = m[:r.intn(len(m))]
 		}
 		mut, rmut = hexOrE(m), show(m)
 	}
-	emit("C12 mp id=%s kind=%s vals=%s bytes=%s rdec=%s mut=%s rmut=%s", id, kind, wireShow(&w), hex.EncodeToString(body), show(body), mut, rmut)
+	emit("C12 mp id=%s kind=%s vals=%s bytes=%s rdec=%s mk=%s mut=%s rmut=%s", id, kind, wireShow(&w), hex.EncodeToString(body), show(body), mk, mut, rmut)
 }
 
 // c09Ppf: the plaintext state exchange a real node writes for a Join (sendLocalState), next to the
